@@ -17,7 +17,7 @@ use crate::engine::{self, adb, guarded, pool, BuildOpts, IndexModel, World};
 use crate::forest;
 use crate::metric::{Metric, ALL_METRICS};
 use crate::props::c09::{decode_sentinel, sentinel_vec, SENTINEL};
-use crate::props::c10::{build_with_cancel, Outcome};
+use crate::props::c10::Outcome;
 use crate::rawdb;
 use crate::util::{case_seed, mix, Counters, J};
 use crate::{emit, line, with_metric, Args};
@@ -161,6 +161,10 @@ fn writer_loop<D: Distance>(world: &World, index: u16, metric: Metric, dims: usi
     let mut committed_model: Items = sh.models.lock().unwrap().get(&0).cloned().unwrap();
     let mut v = 0u64;
     let _ = pool(1);
+    // a service keeps one Writer for the life of the index: hidden state in it must follow commits and aborts
+    let long_lived = seed & 0x200 != 0;
+    let kept = Writer::<D>::new(adb::<D>(world.db), index, dims);
+    c.inc(if long_lived { "cases_with_long_lived_writer" } else { "cases_with_fresh_writers" });
     while v < versions && !sh.stop.load(Ordering::SeqCst) {
         v += 1;
         let pre = {
@@ -170,7 +174,13 @@ fn writer_loop<D: Distance>(world: &World, index: u16, metric: Metric, dims: usi
         sh.phase.store(1, Ordering::SeqCst);
         let mut wtxn = world.env.write_txn().unwrap();
         let mut model = committed_model.clone();
-        let w = Writer::<D>::new(adb::<D>(world.db), index, dims);
+        let fresh;
+        let w: &Writer<D> = if long_lived {
+            &kept
+        } else {
+            fresh = Writer::<D>::new(adb::<D>(world.db), index, dims);
+            &fresh
+        };
         let n_ops = rng.gen_range(1..30);
         for _ in 0..n_ops {
             let id = rng.gen_range(0..120u32);
@@ -202,7 +212,7 @@ fn writer_loop<D: Distance>(world: &World, index: u16, metric: Metric, dims: usi
         let cancel_at = if fate == 0 { Some(rng.gen_range(0..400)) } else { None };
         #[cfg(arroy_verif)]
         arroy::verif::chaos_arm(opts.rng_seed | 1, 25);
-        let r = build_with_cancel::<D>(&mut wtxn, world.db, index, dims, &opts, None, cancel_at);
+        let r = crate::props::c10::build_on::<D>(&mut wtxn, w, &opts, cancel_at);
         #[cfg(arroy_verif)]
         arroy::verif::chaos_arm(0, 0);
         nap(&mut rng);
